@@ -466,6 +466,121 @@ def main():
         except Exception as ex:  # noqa: BLE001
             res.fail(f"thermal patch raises mixed mesh {mname}", f"{type(ex).__name__}: {str(ex)[:150]}", identm)
 
+    # ---------------- the components of the boundary field named in any order / prescribed in several calls ----------------
+    # add_dirichlet(nodes, values, unknowns): values[k] is the component named unknowns[k] (the docstring's own example lists
+    # ['y', 'x']); the field prescribed is the same linear field however its components are listed, so the solve must return it
+    for et in (["TRI3", "QUAD8", "TETRA4", "HEXA8"] if not thorough else ["TRI3", "TRI6", "QUAD4", "QUAD8", "TETRA4", "TETRA10", "HEXA8", "PRISM6"]):
+        dim = M.dim_of(et)
+        mesh = M.mesh_2d(et, 2.0, 1.0, 0.7 if et in M.TRI else 0.5) if dim == 2 else M.mesh_3d(et, 2.0, 1.0, 1.5, 0.5, 3)
+        A, t = rand_affine(rng, dim)
+        M.affine(mesh, A, t)
+        X = mesh.coord
+        bnodes = boundary_nodes(mesh)
+        interior = np.setdiff1d(np.unique(np.concatenate([g.connect.ravel() for g in mesh.Get_list_groupElem(dim)])), bnodes)
+        allnames = ["x", "y", "z"][:dim]
+        if dim == 2:
+            listings = [[[1, 0]], [[1], [0]]]
+        else:
+            perms3 = [[0, 2, 1], [1, 0, 2], [1, 2, 0], [2, 0, 1], [2, 1, 0]]
+            rng.shuffle(perms3)
+            listings = [[p] for p in (perms3 if thorough else perms3[:3])] + [[[2, 0], [1]], [[2], [1, 0]]]
+        for listing in listings:
+            ps = bool(rng.getrandbits(1))
+            lk = rng.choice(laws)
+            law = make_law(rng, lk, dim, ps)
+            G = np.zeros((3, 3))
+            G[:dim, :dim] = [[rng.randint(-8, 8) / 64 for _ in range(dim)] for _ in range(dim)]
+            a0 = np.array([rng.randint(-4, 4) / 8 if i < dim else 0.0 for i in range(3)])
+            want = (a0 + X @ G.T)[:, :dim]
+            calls = [[allnames[c] for c in part] for part in listing]
+            ident = dict(elemType=et, mesh="affine", law=lk, planeStress=ps, G=G[:dim, :dim].tolist(), offset=a0[:dim].tolist(), A=A.tolist(), t=t.tolist(),
+                         add_dirichlet_calls=calls, Nn=int(mesh.Nn))
+            try:
+                simu = Simulations.Elastic(mesh, law)
+                for part in listing:
+                    simu.add_dirichlet(bnodes, [want[bnodes, c].copy() for c in part], [allnames[c] for c in part])
+                u = np.asarray(simu.Solve()).reshape(mesh.Nn, dim)
+            except Exception as ex:  # noqa: BLE001
+                res.fail(f"patch solve raises elem={et} components listed in another order", f"{type(ex).__name__}: {str(ex)[:150]}", ident)
+                continue
+            res.case((et, "listing", str(calls), lk, ps), nontrivial=len(interior) > 0)
+            res.count("components-in-another-order")
+            err = np.abs(u - want).max() / (1 + np.abs(want).max())
+            if not (err <= 1e-9):
+                res.fail(f"patch displacement elem={et} components listed in another order",
+                         f"the linear field prescribed with add_dirichlet calls listing the components as {calls} is not reproduced: max error {err:.2e} (interior nodes: {len(interior)})", ident)
+                continue
+            Gs = (G + G.T) / 2
+            if dim == 2:
+                epsK = np.array([Gs[0, 0], Gs[1, 1], np.sqrt(2) * Gs[0, 1]])
+                names = {"Exx": Gs[0, 0], "Eyy": Gs[1, 1], "Exy": Gs[0, 1]}
+            else:
+                epsK = np.array([Gs[0, 0], Gs[1, 1], Gs[2, 2], np.sqrt(2) * Gs[1, 2], np.sqrt(2) * Gs[0, 2], np.sqrt(2) * Gs[0, 1]])
+                names = {"Exx": Gs[0, 0], "Eyy": Gs[1, 1], "Ezz": Gs[2, 2], "Eyz": Gs[1, 2], "Exz": Gs[0, 2], "Exy": Gs[0, 1]}
+            try:
+                bad = []
+                for nm, val in names.items():
+                    got = np.asarray(simu.Result(nm, nodeValues=False), dtype=float)
+                    if not (np.abs(got - val).max() <= 1e-8 * (1 + np.abs(epsK).max())):
+                        bad.append((nm, float(np.abs(got - val).max())))
+                if bad:
+                    res.fail(f"patch results elem={et} components listed in another order", f"reported constant strains wrong: {bad[:4]} (name, max error)", ident)
+                wantW = 0.5 * epsK @ np.asarray(law.C) @ epsK * (mesh.area * law.thickness if dim == 2 else mesh.volume)
+                gotW = float(simu.Result("Wdef"))
+                if not (abs(gotW - wantW) <= 1e-8 * (1 + abs(wantW))):
+                    res.fail(f"patch energy elem={et} components listed in another order", f"Wdef = {gotW} but ½ ε:C:ε |Ω| t = {wantW}", ident)
+            except Exception as ex:  # noqa: BLE001
+                res.fail(f"patch results raise elem={et} components listed in another order", f"{type(ex).__name__}: {str(ex)[:150]}", ident)
+
+    # beams: the six (3D) / three (2D) components at the two ends named in a shuffled order
+    for bdim in (2, 3):
+        for timo in (False, True):
+            L = 3.0
+            sect = Mesher().Mesh_2D(Domain(Point(), Point(0.5, 0.25)))
+            d3 = np.array([rng.randint(1, 4), rng.randint(-3, 3), rng.randint(-3, 3) if bdim == 3 else 0], dtype=float)
+            d3 /= np.linalg.norm(d3)
+            a3 = np.array([0.3, 1.0, -0.2]) if bdim == 3 else np.array([-d3[1], d3[0], 0.0])
+            y3 = a3 - (a3 @ d3) * d3
+            y3 /= np.linalg.norm(y3)
+            z3 = np.cross(d3, y3)
+            Q3 = np.stack([d3, y3, z3], axis=1)
+            p0 = np.array([0.25, -0.5, 0.75 if bdim == 3 else 0.0])
+            if bdim == 3:
+                beamsP = [Models.Beam.Isotropic(3, Line(Point(*p0), Point(*(p0 + L * d3)), L / 3), sect, 1000.0, 0.25, tuple(y3))]
+                bnames = ["x", "y", "z", "rx", "ry", "rz"]
+            else:
+                beamsP = [Models.Beam.Isotropic(2, Line(Point(*p0), Point(*(p0 + L * d3)), L / 3), sect, 1000.0, 0.25)]
+                bnames = ["x", "y", "rz"]
+            meshP = Mesher().Mesh_Beams(beamsP, elemType=ElemType("SEG3" if timo else "SEG2"))
+            sl = (meshP.coord - p0) @ d3
+            endsP = np.array([int(np.argmin(sl)), int(np.argmax(sl))])
+            e0, kap = rng.randint(1, 8) / 256, rng.randint(1, 8) / 64
+            ul, rl = np.zeros((len(sl), 3)), np.zeros((len(sl), 3))
+            ul[:, 0] = e0 * sl                                   # axial strain and curvature about the member's z axis together
+            ul[:, 1], rl[:, 2] = kap * sl**2 / 2, kap * sl
+            full = np.c_[ul @ Q3.T, rl @ Q3.T]
+            cols = [0, 1, 2, 3, 4, 5] if bdim == 3 else [0, 1, 5]
+            wantP = full[:, cols]
+            while True:
+                perm = list(range(len(bnames)))
+                rng.shuffle(perm)
+                if perm != sorted(perm):
+                    break
+            identP = dict(beam=str(meshP.elemType), timoshenko=timo, dim=bdim, direction=d3.tolist(), yAxis=y3.tolist(), axialStrain=e0, curvature=kap, unknowns=[bnames[k] for k in perm])
+            try:
+                sP = Simulations.Beam(meshP, Models.Beam.BeamStructure(beamsP), useTimoshenko=timo)
+                sP.add_dirichlet(endsP, [wantP[endsP, k] for k in perm], [bnames[k] for k in perm])
+                uP = np.asarray(sP.Solve()).reshape(-1, len(bnames))
+            except Exception as ex:  # noqa: BLE001
+                res.fail(f"beam patch raises dim={bdim} components listed in another order", f"{type(ex).__name__}: {str(ex)[:150]}", identP)
+                continue
+            res.case(("beam", bdim, timo, "listing", tuple(perm)))
+            res.count("components-in-another-order")
+            errP = np.abs(uP - wantP).max() / (1 + np.abs(wantP).max())
+            if not (errP <= 1e-9):
+                res.fail(f"beam patch dim={bdim} timo={timo} components listed in another order",
+                         f"constant axial strain + curvature prescribed at the two ends with the components named as {identP['unknowns']} is not reproduced: max error {errP:.2e}", identP)
+
     answers = driver.ask(lines)
     if answers is None:
         res.disagree("driver", "model driver does not run: " + getattr(driver, "error", "")[:400])
